@@ -74,6 +74,12 @@ func zzParseAttrs(spec string) []*onnx.AttributeProto {
 				ss = append(ss, []byte(x))
 			}
 			out = append(out, &onnx.AttributeProto{Name: name, Type: onnx.AttributeProto_STRINGS, Strings: ss})
+		case "coefficients", "intercepts", "offset", "scale":
+			var fs []float32
+			for _, x := range zzSplit(val, ',') {
+				fs = append(fs, float32(zzAtoi(x)))
+			}
+			out = append(out, &onnx.AttributeProto{Name: name, Type: onnx.AttributeProto_FLOATS, Floats: fs})
 		case "value_float":
 			out = append(out, &onnx.AttributeProto{Name: name, Type: onnx.AttributeProto_FLOAT, F: float32(zzAtoi(val))})
 		default:
